@@ -156,9 +156,9 @@ m('c14_history_before_queue', ['C14'], S,
   ("            try:\n                self.event_queue.put_nowait(event)\n                # Only add to history after successfully queuing\n                self.event_history[event.event_id] = event", "            try:\n                self.event_history[event.event_id] = event\n                self.event_queue.put_nowait(event)"))
 m('c14_swallow_queue_full', ['C14'], S,
   ("                raise  # could also block indefinitely until queue has space, but dont drop silently or delete events", "                pass"))
-m('c15_idle_set_while_handler_runs', ['C15'], S,
-  ("                        if not (self.events_pending or self.events_started or self.event_queue.qsize()):\n                            self._on_idle.set()\n                except QueueShutDown:", "                        if not (self.events_pending or self.event_queue.qsize()):\n                            self._on_idle.set()\n                except QueueShutDown:"),
-  ("            while not self._on_idle.is_set() or self.events_started or self.events_pending:", "            while not self._on_idle.is_set() or self.events_pending:"))
+m('c15_join_on_done_flag_only', ['C15'], S,
+  ("            join_task = asyncio.create_task(self.event_queue.join())\n            await asyncio.wait_for(join_task, timeout=remaining_timeout)", "            if self.event_queue.qsize():\n                join_task = asyncio.create_task(self.event_queue.join())\n                await asyncio.wait_for(join_task, timeout=remaining_timeout)"),
+  ("            while not self._on_idle.is_set() or self.events_started or self.events_pending:", "            while not self._on_idle.is_set():"))
 m('c15_no_recheck_loop', ['C15'], S,
   ("            while not self._on_idle.is_set() or self.events_started or self.events_pending:", "            while False:"))
 m('c16_stop_waits_unbounded', ['C16'], S,
